@@ -87,3 +87,17 @@ Proof.
 Qed.
 Lemma link_uri_subdelim_words : map (map Z.to_N) g_uri_subdelim_words = [amp_s; apos_s].
 Proof. vm_compute. reflexivity. Qed.
+
+(* private/c_string.h: icompare_c_string orders by ilt; two bytes are equivalent for the html maps and
+   sets iff the model's to_lower agrees on them *)
+From CppcmsV Require Import gen.Gen_cstr.
+Lemma link_cstr_ilt a b : a < 256 -> b < 256 -> g_cstr_ilt (sch a) (sch b) = (to_lower a <? to_lower b).
+Proof.
+  intros Ha Hb. apply eqb_prop.
+  apply (sweep256_2 (fun a b => eqb (g_cstr_ilt (sch a) (sch b)) (to_lower a <? to_lower b))); [vm_compute; reflexivity|exact Ha|exact Hb].
+Qed.
+Lemma link_cstr_equiv a b : a < 256 -> b < 256 ->
+  (g_cstr_ilt (sch a) (sch b) = false /\ g_cstr_ilt (sch b) (sch a) = false) <-> to_lower a = to_lower b.
+Proof.
+  intros Ha Hb. rewrite (link_cstr_ilt a b Ha Hb), (link_cstr_ilt b a Hb Ha). rewrite !N.ltb_ge. lia.
+Qed.
